@@ -63,8 +63,8 @@ class Reject(Exception):
     """The case is outside the quantified domain (documented rejection)."""
 
 
-class _Skip(Exception):
-    pass
+class ReplayEnd(Exception):
+    """A replayed log ran out: everything that was logged has been re-executed."""
 
 
 # ---------------------------------------------------------------------------
@@ -84,7 +84,9 @@ class Chooser:
     def _next(self, label, make):
         if self.replaying:
             if self.pos >= len(self.log):
-                raise HarnessError(f'replay exhausted at {label!r}')
+                # The log of a failing run ends where the failure happened; if the code under test no longer
+                # fails there the function asks for further draws.  All logged steps were re-executed and held.
+                raise ReplayEnd(label)
             lab, val = self.log[self.pos]
             if lab != label:
                 raise HarnessError(f'replay out of sync: wanted {label!r} found {lab!r}')
@@ -225,7 +227,7 @@ class Ctx:
         """Call code under test; an exception outside ``allowed`` is a violation."""
         try:
             return fn(*args, **kw)
-        except (Violation, HarnessError, Reject):
+        except (Violation, HarnessError, Reject, ReplayEnd):
             raise
         except allowed:
             raise
@@ -430,7 +432,7 @@ def replay_case(mod, check_name, case, known=()):
     fresh_state()
     try:
         fn(ch, ctx)
-    except Reject:
+    except (Reject, ReplayEnd):
         return None
     except Violation as v:
         return v
@@ -695,7 +697,11 @@ def validate_and_write(ev, prop):
     try:
         jsonschema.validate(ev, schema)
     except jsonschema.ValidationError as e:
-        raise HarnessError(f'evidence does not validate: {e.message}')
+        if ev.get('violations'):
+            # a run cut short by a violation may not have explored enough; keep what was measured
+            print(f'note: evidence below schema minimum after a violation: {e.message}', file=sys.stderr)
+        else:
+            raise HarnessError(f'evidence does not validate: {e.message}')
     os.makedirs(os.path.join(ROOT, 'evidence'), exist_ok=True)
     with open(os.path.join(ROOT, 'evidence', f'{prop}.json'), 'w') as f:
         json.dump(ev, f, indent=1, sort_keys=True, default=str)
